@@ -14,6 +14,7 @@ mod plan;
 mod props;
 mod rng;
 mod run;
+mod spawn;
 mod vclock;
 mod watch;
 mod winshim;
@@ -84,6 +85,8 @@ fn main() {
         i += 1;
     }
     std::fs::create_dir_all(&work).expect("work dir");
+    let work = std::fs::canonicalize(&work).expect("canonical work dir");
+    let vchild = std::fs::canonicalize(&vchild).expect("vchild binary not found");
     ilog::init();
     interpose::init_all();
     allocwatch::warm_up();
